@@ -21,8 +21,9 @@ def universes(tier, base="StateMachine"):
 
     quick:    first (must_finish or not), reg, mf, optional default; all timed with lazy next_state links;
               in-state scripts of length <= 1 with next_state_now nesting <= 1.
-    thorough: the same shapes with timed and with untimed states and scripts of length <= 2 / nesting <= 2,
-              plus five-state universes (second regular and second must_finish state) with scripts of length 1.
+    thorough: the timed shapes with in-state scripts of length <= 2 (two transitions / next_state_now calls in one
+              state call), the same shapes with untimed states, and five-state universes (second regular and second
+              must_finish state) with scripts of length 1.  Nesting of next_state_now stays at 1.
     """
     out = []
     for first_mf in (False, True):
@@ -33,7 +34,7 @@ def universes(tier, base="StateMachine"):
                 if with_default:
                     specs.append(StateSpec("dflt", "default", params=("tm", "state_tm", "initial_call")))
                 name = f"{base}[{kind};first{'+mf' if first_mf else ''};{'default' if with_default else 'nodefault'}]"
-                out.append((name, specs, 1 if tier == "quick" else 2, 1))
+                out.append((name, specs, 2 if (tier == "thorough" and kind == "timed") else 1, 1))
     if tier == "thorough":
         for with_default in (False, True):
             specs = [StateSpec("first", "timed", first=True), StateSpec("reg", "timed"), StateSpec("mf", "timed", must_finish=True), StateSpec("reg2", "state"), StateSpec("mf2", "timed", must_finish=True)]
